@@ -131,6 +131,30 @@ fn total_lists(bytes: &[u8]) -> CheckResult {
             }
         }
     }
+    {
+        let cap = bytes.len() + 2;
+        let mut it = NumericList::new(bytes);
+        for _ in 0..cap {
+            let (lo, hi) = it.size_hint();
+            ensure!(hi.map_or(true, |h| lo <= h), "size-hint", "{:?}: NumericList size_hint() = ({lo}, {hi:?})", escape(bytes));
+            if !matches!(it.next(), Some(Ok(_))) {
+                break;
+            }
+        }
+        let _: Vec<_> = NumericList::new(bytes).take(cap).collect();
+        if let Some(mut it) = ChannelList::new(bytes) {
+            for _ in 0..cap {
+                let (lo, hi) = it.size_hint();
+                ensure!(hi.map_or(true, |h| lo <= h), "size-hint", "{:?}: ChannelList size_hint() = ({lo}, {hi:?})", escape(bytes));
+                if !matches!(it.next(), Some(Ok(_))) {
+                    break;
+                }
+            }
+        }
+        if let Some(it) = ChannelList::new(bytes) {
+            let _: Vec<_> = it.take(cap).collect();
+        }
+    }
     if let Some(it) = ChannelList::new(bytes) {
         let mut n = 0usize;
         for item in it {
@@ -151,6 +175,31 @@ fn total_lists(bytes: &[u8]) -> CheckResult {
                         break;
                     }
                 }
+                // the iterator's other entry points must be total as well: size_hint at every position (what
+                // `collect` and `extend` call whenever they grow), bounded collect, count, last, nth
+                let cap = bytes.len() + 2;
+                let collected: Vec<_> = s.into_iter().take(cap).collect();
+                ensure!(collected.len() <= cap, "non-termination", "{:?}: collect", escape(bytes));
+                let finite = collected.len() < cap;
+                let mut it = s.into_iter();
+                for k in 0..cap {
+                    let (lo, hi) = it.size_hint();
+                    ensure!(hi.map_or(true, |h| lo <= h), "size-hint", "{:?}: ChannelSpec iterator size_hint() = ({lo}, {hi:?})", escape(bytes));
+                    // Iterator's contract: the bounds enclose the number of items that really follow
+                    if finite && k <= collected.len() {
+                        let left = collected.len() - k;
+                        ensure!(lo <= left && hi.map_or(true, |h| h >= left), "size-hint", "{:?}: ChannelSpec iterator after {k} items: size_hint() = ({lo}, {hi:?}) but {left} items follow", escape(bytes));
+                    }
+                    match it.next() {
+                        Some(Ok(_)) => {}
+                        _ => break,
+                    }
+                }
+                let _ = s.into_iter().take(cap).count();
+                let _ = s.into_iter().take(cap).last();
+                let _ = s.into_iter().nth(3);
+                let mut v: Vec<Result<isize, _>> = Vec::new();
+                v.extend(s.into_iter().take(cap));
                 let _: Result<isize, _> = s.try_into();
                 let _: Result<usize, _> = s.try_into();
                 let _: Result<(isize, isize), _> = s.try_into();
@@ -357,7 +406,7 @@ pub const CLASS_ALPHABET: &[u8] = b"BE10*:?;, \n\"'#().+\xff";
 
 fn run(e: &Engine) {
     // regression inputs (design-phase observations and past failures)
-    let fixed: Vec<Case> = [&b"@1!!2"[..], b"@0!!", b"@11!!", b"@!", b"@1!", b"@-", b"@+!+"].iter().map(|b| Case::List { bytes: B(b.to_vec()) }).collect();
+    let fixed: Vec<Case> = [&b"@1!!2"[..], b"@0!!", b"@11!!", b"@!", b"@1!", b"@-", b"@+!+", b"@1-2-3-4-5", b"@1+2+3+4+5+6+7+8+9+10", b"@1!2-3-4-5-6-7:8", b"1-2-3-4-5-6-7-8-9"].iter().map(|b| Case::List { bytes: B(b.to_vec()) }).collect();
     e.fixed("regression-inputs", fixed, check);
     // long runs of one lexical class in every element position (counters, length limits)
     let mut long: Vec<Case> = Vec::new();
